@@ -1212,6 +1212,8 @@ func genCases(tier string, seed uint64, search bool) []*Case {
 		}
 		cs = append(cs, &Case{Family: "random", Init: init, Ended: dedup(ended), PreArm: pre, Ops: ops})
 	}
+	// F8: large pools (large.go)
+	cs = append(cs, genLarge(tier, seed, search)...)
 	// F7: gated contexts (gate.go)
 	cs = append(cs, genGated(tier, seed, search)...)
 	return cs
@@ -1449,6 +1451,11 @@ func main() {
 			continue
 		}
 		out := r.out
+		if !traced(c, fl.Tier, fl.Replay != "") {
+			// monitors only (large.go): the state-set simulation is quadratic in the pool size
+			out.Lines = nil
+			res.Hit("large:monitors-only")
+		}
 		ranCases = append(ranCases, r)
 		lines = append(lines, out.Lines...)
 		res.Count(c.key(), out.SawLive && out.DoneAfter)
